@@ -1,6 +1,7 @@
 package sorting
 
 import (
+	"math"
 	"strconv"
 )
 
@@ -15,8 +16,13 @@ func ByName(a, b string) bool {
 func ByNameSmart(a, b string) bool {
 	v0, err0 := strconv.ParseFloat(a, 64)
 	v1, err1 := strconv.ParseFloat(b, 64)
-	num0, num1 := err0 == nil, err1 == nil
+	// NaN compares false with everything: order it as text
+	num0, num1 := err0 == nil && !math.IsNaN(v0), err1 == nil && !math.IsNaN(v1)
 	if num0 && num1 {
+		if v0 == v1 {
+			// Same magnitude, different spelling (1, 1.0, +1): order by text
+			return a < b
+		}
 		return v0 < v1
 	}
 	if num0 != num1 {
